@@ -31,6 +31,7 @@ func (c cfgT) String() string { return c.mode + c.fs + c.ctx }
 type vmS struct {
 	st, alt []*Elem
 	err     string
+	cond    int // open conditionals
 }
 
 // grp is one group of res.
@@ -101,13 +102,16 @@ type binder struct {
 	tables *Tables
 	flags  map[string]txscript.ScriptFlags
 
+	sigCache  *txscript.SigCache
+	hashCache *txscript.HashCache
+
 	tmu     sync.Mutex
 	mu      sync.Mutex
 	samples int
 }
 
 func newBinder(c *vrun.Ctx) *binder {
-	return &binder{c: c, w: NewWorld(c.Seed), in: newInterner()}
+	return &binder{c: c, w: NewWorld(c.Seed), in: newInterner(), sigCache: txscript.NewSigCache(1000), hashCache: txscript.NewHashCache(100)}
 }
 
 // ensureTables reads the tables once (every TLC run prints the same ones).
@@ -153,11 +157,20 @@ type spend struct {
 	ctx      TxCtx
 }
 
-var prevHash = chainhash.Hash(sha256.Sum256([]byte("verif-script-prevout")))
+var fundingPrev = chainhash.Hash(sha256.Sum256([]byte("verif-script-prevout")))
+
+// funding is the transaction whose only output the spend consumes.
+func (s *spend) funding() *wire.MsgTx {
+	tx := wire.NewMsgTx(1)
+	tx.AddTxIn(wire.NewTxIn(wire.NewOutPoint(&fundingPrev, 0), []byte{txscript.OP_TRUE}, nil))
+	tx.AddTxOut(wire.NewTxOut(s.amount, s.pkScript))
+	return tx
+}
 
 func (s *spend) tx() *wire.MsgTx {
 	tx := wire.NewMsgTx(s.ctx.Ver)
 	tx.LockTime = s.ctx.Lock
+	prevHash := s.funding().TxHash()
 	in := wire.NewTxIn(wire.NewOutPoint(&prevHash, 0), s.sigScr, nil)
 	in.Sequence = s.ctx.Seq
 	if len(s.witness) > 0 {
@@ -449,6 +462,18 @@ func (b *binder) runProgCase(pc *progCase, sp *spend, cc *Conc) error {
 	if err != nil {
 		return err
 	}
+	if key == "" && g.x == "run" && g.s.err != "" && len(pc.prog) > 0 && len(pc.prog) < 200 {
+		// The specification fails at the last token.  When the program ends there,
+		// the implementation's last Step can fail for another reason (end-of-script
+		// checks), which would hide a token that wrongly succeeds: run the program
+		// again with its conditionals closed and OP_1 appended - the token must
+		// still be the one that fails (a failing token fails whatever follows).
+		k2, w2, err := b.failsWithSuffix(pc, P)
+		if err != nil {
+			return err
+		}
+		key, what = k2, w2
+	}
 	c.AddEval(1)
 	if r.execOK != specOK {
 		if key == "" {
@@ -466,6 +491,54 @@ func (b *binder) runProgCase(pc *progCase, sp *spend, cc *Conc) error {
 		c.Violation("execute-vs-step:"+lastOp, fmt.Sprintf("Execute() and a Step() loop disagree (%v vs %v): %s", errOrNil(r.execErr), r.errString(), b.describe(pc)), rep(nil))
 	}
 	return nil
+}
+
+// failsWithSuffix re-runs pc.prog + OP_ENDIF.. + OP_1 and checks that the last
+// token of pc.prog still fails.
+func (b *binder) failsWithSuffix(pc *progCase, P int) (string, string, error) {
+	n := len(pc.prog)
+	open := 0
+	if n >= 2 {
+		open = pc.chain[n-2].s.cond
+	}
+	ext := append([]*Tok{}, pc.prog...)
+	for i := 0; i < open+1; i++ {
+		ext = append(ext, &Tok{Op: "OP_ENDIF", E: &Elem{T: "raw"}})
+	}
+	ext = append(ext, &Tok{Op: "OP_N", N: 1, E: &Elem{T: "raw"}})
+	last := pc.prog[n-1]
+	if last.Tr || (last.Op == "PUSH" && last.E.T == "sig") {
+		return "", "", nil // nothing can follow a truncated push; signatures would sign another script
+	}
+	for _, t := range pc.prog {
+		if t.Op == "PUSH" && t.E.T == "sig" {
+			return "", "", nil
+		}
+	}
+	for _, e := range pc.init {
+		if e.T == "sig" {
+			return "", "", nil
+		}
+	}
+	if pc.t.mode == "t" && pc.chain[n-1].s.err == "tapsigops" {
+		return "", "", nil // the signature-operation budget grows with the script
+	}
+	sp, _, err := b.buildProgSpend(pc.t, pc.init, ext)
+	if err != nil {
+		return "", "", err
+	}
+	sp.flags = b.flags[pc.t.fs]
+	r := sp.observe(P + len(ext) + 8)
+	b.c.AddEval(1)
+	if r.panicked != "" {
+		return "panic:" + opName(last), "script verification panicked on the extended program", nil
+	}
+	if r.newErr == nil && r.steps >= P+n {
+		e := pc.chain[n-1]
+		return "step-should-fail:" + opName(last) + ":" + e.s.err,
+			fmt.Sprintf("token %d (%s) must fail (%s) but Step succeeded when more tokens follow it", n, opName(last), e.s.err), nil
+	}
+	return "", "", nil
 }
 
 func sep(s string) string {
@@ -604,7 +677,7 @@ func (b *binder) parseGroup(v tla.Value) grp {
 		g.cf = append(g.cf, cfgT{s[0].Str(), s[1].Str(), s[2].Str()})
 	}
 	s := v.F("s")
-	g.s = vmS{st: b.in.elems_(s.F("st")), alt: b.in.elems_(s.F("alt")), err: s.F("err").Str()}
+	g.s = vmS{st: b.in.elems_(s.F("st")), alt: b.in.elems_(s.F("alt")), err: s.F("err").Str(), cond: s.F("cond").Len()}
 	return g
 }
 
